@@ -71,6 +71,9 @@ pub fn pool() -> Vec<Template> {
         // a parameter named like a global symbol (`k`), followed by a sub-rule operand whose own expression
         // may mention that global: the operand is written in the scope of the line, not of the rule
         t("mw {k: u8}, {s: src}", "0x6 @ s @ k @ 0x0", &[Typed('u', 8), Src]),
+        // mnemonics with a digit-then-letter piece (one NUMBER token to the tokenizer, letters included)
+        t("v.4s {x: u8}", "0xa1 @ x", &[Typed('u', 8)]),
+        t("2x {x: u8}", "0xa2 @ x", &[Typed('u', 8)]),
         // two sub-rule operands, the ambiguous one (literal `a` / expression) first
         t("mvs {s: src}, {d: reg}", "0xa @ d @ s", &[Src, Reg]),
         // a digit-led token inside the first literal characters of the mnemonic
@@ -357,7 +360,7 @@ pub fn f2_prog(seq: &[usize], items: &[Item], banked: bool) -> Prog {
 pub fn run(ctx: &Ctx) -> Report {
     let mut rep = Report::new(
         "model_checking",
-        "F1: every rule set of 1..k templates from a 35-template pool (prefix-sharing mnemonics, literal/typed/untyped/sub-rule operands, wrappers, glued and suffix literals, tie and smallest-wins pairs, slices, le(), $-relative) x every line of the whole pool (every range boundary, labels before/after, constant, undefined name) + malformed lines; F2: fixed 8-rule set x all item sequences up to a length (labels global/nested, constants, data of several widths, #res/#align/#addr, two banks); each compared (success, bits, symbol values) with the reference assembler. Non-trivial = the reference defines the outcome and the program emits >=1 item or is rejected by the rules; distinct by program text.",
+        "F1: every rule set of 1..k templates from a 37-template pool (prefix-sharing mnemonics, literal/typed/untyped/sub-rule operands, wrappers, glued and suffix literals, tie and smallest-wins pairs, slices, le(), $-relative) x every line of the whole pool (every range boundary, labels before/after, constant, undefined name) + malformed lines; F2: fixed 8-rule set x all item sequences up to a length (labels global/nested, constants, data of several widths, #res/#align/#addr, two banks); each compared (success, bits, symbol values) with the reference assembler. Non-trivial = the reference defines the outcome and the program emits >=1 item or is rejected by the rules; distinct by program text.",
     );
     let pool = pool();
     let opts = Opts::iters(30);
